@@ -32,7 +32,7 @@ import (
 type c04Job struct {
 	Pairs   string `json:"pairs"` // subset of "123"
 	Var     string `json:"var"`   // same | event | addr
-	Restart bool   `json:"restart"`
+	Restart string `json:"restart"` // "" | P1 | P2 | P3: this pair's thread restarts everything (loadTasks) before its second step
 	K       int    `json:"k"` // steps per pair thread in the explored phase
 	Batch   int    `json:"batch"`
 }
@@ -75,11 +75,15 @@ func c04Jobs(thorough bool) []c04Job {
 			if !strings.Contains(ps, "2") && v == "event" {
 				continue // ig2 absent: the variant only changes ig2
 			}
-			for _, rs := range []bool{false, true} {
-				jobs = append(jobs, c04Job{Pairs: ps, Var: v, Restart: rs, K: k, Batch: 1})
-				if thorough && !rs {
-					jobs = append(jobs, c04Job{Pairs: ps, Var: v, Restart: rs, K: 2, Batch: 2})
+			jobs = append(jobs, c04Job{Pairs: ps, Var: v, K: k, Batch: 1})
+			if thorough {
+				jobs = append(jobs, c04Job{Pairs: ps, Var: v, K: 2, Batch: 2})
+			}
+			for i := 0; i < len(ps); i++ {
+				if !thorough && (i > 0 || v == "event" || ps == "123" || ps == "23" || (ps == "13" && v == "addr")) {
+					continue // quick: P1 restarts, on the two-pair subsets containing P1
 				}
+				jobs = append(jobs, c04Job{Pairs: ps, Var: v, Restart: "P" + ps[i:i+1], K: 2, Batch: 1})
 			}
 		}
 	}
@@ -221,6 +225,7 @@ type c04Result struct {
 	trans     int64
 	inserters int // pairs that inserted at least one row
 	deletes   int // delete changes committed
+	restarts  int
 	stepErrs  map[string]int
 	steps     []string
 }
@@ -348,16 +353,58 @@ func c04Exec(j c04Job, p *c04Prep, ch vrt.Chooser, states *vrt.StateSet, trace b
 			}
 		}
 
+		// the head poller a (re)built client starts only ever waits for ticks nobody sends: its pending operation
+		// commutes with everything, so it is never switched to preemptively
+		w.OnExchange = func(ex *simeth.Exchange) {
+			for _, th := range w.V.Threads() {
+				if th.OnlyAt == nil && len(th.Name) > 1 && th.Name[0] == 'g' && th.Name[1] >= '0' && th.Name[1] <= '9' {
+					th.OnlyAt = func(string) bool { return false }
+				}
+			}
+		}
+
 		// ---- explored phase
-		envLeft := len(p.hosts)
+		scriptB := len(p.pairs) > 2 // see below
+		envLeft := map[string]int{}
+		for _, h := range p.hosts {
+			envLeft[h] = 1
+		}
 		var threads []*vrt.Thread
 		for i := range p.pairs {
 			pr := &p.pairs[i]
+			// pairs of the second source (another node, another client) share only the database with the others:
+			// when both sources are present their step boundaries are ordinary scheduling points (a switch there
+			// costs a preemption), the boundaries of the first source's pairs are free
+			coarse := pr.host == "node2" && len(p.hosts) > 1
 			pth := w.V.GoNamed(pr.name, func() {
 				for s := 0; s < j.K; s++ {
-					vrt.Boundary("step")
+					if coarse {
+						vrt.Yield("step:" + pr.name)
+					} else {
+						vrt.Boundary("step")
+					}
 					if w.V.Closing() {
 						return
+					}
+					if scriptB && pr.host == "node2" && s == 1 {
+						// three-pair jobs: the second source's reorg lands between this pair's two steps
+						w.SetChain("node2", p.ops["node2"][0], "reorg")
+						envLeft["node2"] = 0
+					}
+					if j.Restart == pr.name && s == 1 {
+						// restart: discard every task and source client, rebuild them as the start-up path does
+						nt, err := w.LoadTasks(conf)
+						if w.V.Closing() {
+							return
+						}
+						if err != nil || len(nt) != len(p.pairs) {
+							w.HarnessErr = fmt.Sprintf("restart loadTasks: %v (%d tasks)", err, len(nt))
+							return
+						}
+						for _, t := range nt {
+							current[t.Key()] = t
+						}
+						res.restarts++
 					}
 					t := current[pr.src+"/"+pr.ig]
 					out, err := t.Step()
@@ -375,16 +422,17 @@ func c04Exec(j c04Job, p *c04Prep, ch vrt.Chooser, states *vrt.StateSet, trace b
 					case "error":
 						res.stepErrs[errClass(err)]++
 					}
-					if out != "ok" && envLeft > 0 {
-						vrt.Sleep(time.Second)
+					if out != "ok" && envLeft[pr.host] > 0 && s < j.K-1 {
+						vrt.Sleep(time.Second) // polling an unchanged source again would repeat the same step
 					}
 				}
 			})
 			// reduction: a pair thread is switched to preemptively only while the running thread is at an RPC
-			// exchange or a lock operation (the shared source client and its caches) or at a step boundary; the
+			// exchange with the pair's own node (the shared source client and its caches) or at a step boundary;
 			// SQL statements of different pairs touch disjointly stamped rows and are not interleaved preemptively
+			host := pr.host
 			pth.OnlyAt = func(l string) bool {
-				return strings.HasPrefix(l, "rpc:") || l == "lock" || strings.HasPrefix(l, "boundary:")
+				return strings.HasPrefix(l, "rpc:"+host+":") || strings.HasPrefix(l, "boundary:") || strings.HasPrefix(l, "step:")
 			}
 			threads = append(threads, pth)
 		}
@@ -393,6 +441,9 @@ func c04Exec(j c04Job, p *c04Prep, ch vrt.Chooser, states *vrt.StateSet, trace b
 			name := "envA"
 			if h == "node2" {
 				name = "envB"
+				if scriptB {
+					continue
+				}
 			}
 			th := w.V.GoNamed(name, func() {
 				for i, c := range p.ops[h] {
@@ -404,32 +455,13 @@ func c04Exec(j c04Job, p *c04Prep, ch vrt.Chooser, states *vrt.StateSet, trace b
 					}
 					w.SetChain(h, c, "reorg")
 				}
-				envLeft--
+				envLeft[h] = 0
 				w.V.Bump()
 			})
 			th.OnlyAt = func(l string) bool {
-				return strings.HasPrefix(l, "rpc:"+h+":") || strings.HasPrefix(l, "boundary:")
+				return strings.HasPrefix(l, "rpc:"+h+":") || strings.HasPrefix(l, "boundary:") || strings.HasPrefix(l, "step:")
 			}
 			threads = append(threads, th)
-		}
-		if j.Restart {
-			threads = append(threads, w.V.GoNamed("driver", func() {
-				vrt.Boundary("restart")
-				if w.V.Closing() {
-					return
-				}
-				nt, err := w.LoadTasks(conf)
-				if w.V.Closing() {
-					return
-				}
-				if err != nil || len(nt) != len(p.pairs) {
-					w.HarnessErr = fmt.Sprintf("restart loadTasks: %v (%d tasks)", err, len(nt))
-					return
-				}
-				for _, t := range nt {
-					current[t.Key()] = t
-				}
-			}))
 		}
 		w.V.Join(threads...)
 		g.open = false
@@ -607,11 +639,16 @@ func c04Symptom(p *c04Prep, pr *c04Pair, cols []string, got, want []string) stri
 
 // ---- driver ---------------------------------------------------------------------------------------
 
-func c04Bounds(thorough bool) explore.Bounds {
+func c04Bounds(thorough bool, j c04Job) explore.Bounds {
 	var b explore.Bounds
 	b[0], b[vrt.KPreempt] = 1, 1
 	if thorough {
 		b[0], b[vrt.KPreempt] = 2, 2
+	}
+	if len(j.Pairs) > 2 {
+		// three pairs: step-granular interleavings only (quick), one preemption (thorough); the finer
+		// interleavings of every two of them are covered by the two-pair jobs
+		b[0], b[vrt.KPreempt] = b[0]-1, b[vrt.KPreempt]-1
 	}
 	return b
 }
@@ -627,7 +664,7 @@ func c04Run(c *fw.Ctx) {
 		jobs = []c04Job{one}
 	}
 	c.Bound("jobs", len(jobs))
-	c.Bound("preemptions", c04Bounds(c.Thorough())[vrt.KPreempt])
+	c.Bound("preemptions", c04Bounds(c.Thorough(), c04Job{})[vrt.KPreempt])
 	for _, j := range jobs {
 		if !c.Mine() {
 			continue
@@ -641,7 +678,7 @@ func c04Run(c *fw.Ctx) {
 			return
 		}
 		states := vrt.NewStateSet()
-		b := c04Bounds(c.Thorough())
+		b := c04Bounds(c.Thorough(), j)
 		t0, cpu0 := time.Now(), cpuSeconds()
 		st := explore.Explore(b, true, func(r *explore.Run) bool {
 			res := c04Exec(j, p, r, states, false)
@@ -674,6 +711,7 @@ func c04Run(c *fw.Ctx) {
 			c.Res.Transitions += res.trans
 			c.Res.Traces++
 			c.Count("reorg_deletions_committed", int64(res.deletes))
+			c.Count("restarts", int64(res.restarts))
 			if res.inserters >= 2 {
 				c.Count("executions_with_rows_of_several_pairs", 1)
 			}
